@@ -115,6 +115,13 @@ def oracle_c16(case):
                 json.dump(pg, open(fp, "w"))
                 argv += ["-m", "Item", "data.items", fp]
             samples = {"Item": pages[0]["data"]["items"] + pages[2]["data"]["items"]}
+        elif split == "yaml_plain_scalars":
+            # YAML 1.2 (what the loader is configured for): yes / no / on / off and 010 are a string and the integer ten
+            docs = [{"enabled": "yes", "mode": "off", "n": 10, "name": "a"}, {"enabled": "no", "mode": "on", "n": 7, "name": "b"}]
+            yp = os.path.join(d, "plain.yaml")
+            open(yp, "w").write("- enabled: yes\n  mode: off\n  n: 010\n  name: a\n- enabled: no\n  mode: on\n  n: 7\n  name: b\n")
+            argv += ["-m", "Item", yp, "-i", "yaml"]
+            samples = {"Item": docs}
         elif split == "bracket_name":
             # a literal file name with glob meta-characters in it; a decoy that the character class would match
             real = os.path.join(d, "export[1].json")
@@ -188,13 +195,13 @@ def oracle_c16(case):
 
 @bounded("C16", "cli_equals_library_pipeline")
 def c16(tier, seed):
-    splits = ["one_model_many_files", "two_models", "m_and_l", "pattern", "bracket_name", "empty_pages"]
+    splits = ["one_model_many_files", "two_models", "m_and_l", "pattern", "bracket_name", "empty_pages", "yaml_plain_scalars"]
     opts = ["none", "exact", "max0", "max2", "dkf", "converters", "preamble", "merge:percent_1", "merge:percent_0.5", "merge:percent_15", "merge:percent_100 number_1", "merge:percent_70", "merge:percent_71", "merge:percent_69",
             "merge:number_2", "merge:number_1 exact"]
     fws = ["base", "pydantic", "attrs", "dataclasses"] if tier == "thorough" else ["pydantic", "dataclasses"]
     cases = [(s, fw, lay, o) for s in splits for fw in fws for lay in ("flat", "nested") for o in opts]
     r = run_cases(cases, oracle_c16, "c16")
-    r["bound"] = f"6 ways of splitting 4 documents over files / lookups / -m / -l / a one-file pattern / literal names containing [ ] / paginated files with an empty page x {len(fws)} frameworks x 2 layouts x 16 option sets (incl. merge thresholds around the overlaps present); stdout and -o both compared with the library pipeline"
+    r["bound"] = f"7 ways of splitting 4 documents over files / lookups / -m / -l / a one-file pattern / literal names containing [ ] / paginated files with an empty page / a YAML file with 1.1-only plain scalars x {len(fws)} frameworks x 2 layouts x 16 option sets (incl. merge thresholds around the overlaps present); stdout and -o both compared with the library pipeline"
     r["function"] = "Cli.parse_args + Cli.run (in-process)"
     return r
 
@@ -207,6 +214,86 @@ def c02_cli(tier, seed):
     r = run_cases(cases, oracle_c16, "c16")
     r["bound"] = "paginated lookup files with an empty page (2 frameworks) and a mixed -m/-l input: CLI output equals the library pipeline on exactly the objects present"
     r["function"] = "dict_lookup / iter_json_file / Cli.setup_models_data"
+    return r
+
+
+def oracle_cli_reuse(case):
+    """one Cli object used for two command lines in a row: the second run gives what a fresh Cli gives for the second command line"""
+    first_opts, second_opts = case
+    from json_to_models.cli import Cli
+    import contextlib
+    import io
+    with workdir() as d:
+        p = os.path.join(d, "g.json")
+        json.dump([{"n": "12", "l": ["1", "2"], "s": "abc", "c": {"k": "1.5"}}], open(p, "w"))
+        base = ["-m", "Item", p]
+        reset_default_registry()
+        try:
+            def run(cli, opts):
+                with contextlib.redirect_stdout(io.StringIO()), contextlib.redirect_stderr(io.StringIO()):
+                    cli.parse_args(base + list(opts))
+                    return strip_header(cli.run())
+            fresh = run(Cli(), second_opts)
+            reset_default_registry()
+            shared = Cli()
+            run(shared, first_opts)
+            reset_default_registry()
+            again = run(shared, second_opts)
+        finally:
+            reset_default_registry()
+        if again != fresh:
+            a, b = again, fresh
+            i = next((k for k, (x, y) in enumerate(zip(a, b)) if x != y), min(len(a), len(b)))
+            return f"a Cli object that first ran {list(first_opts)} prints for {list(second_opts)} something else than a fresh Cli: near {a[max(0, i - 50):i + 50]!r} vs {b[max(0, i - 50):i + 50]!r}"
+    return None
+
+
+REUSE_CASES = [((), ("-f", "attrs", "--strings-converters")), (("-f", "attrs", "--strings-converters"), ("-f", "attrs")),
+               (("-f", "dataclasses"), ("-f", "dataclasses", "--strings-converters")), (("--merge", "exact"), ("--merge", "percent_50")),
+               (("--max-strings-literals", "0"), ()), (("--dkf", "c"), ()), (("-f", "pydantic", "--preamble", "X = 1"), ("-f", "pydantic")),
+               (("-f", "dataclasses", "--code-generator-kwargs", "meta=true"), ("-f", "dataclasses"))]
+
+
+@bounded("C16", "one_cli_object_two_command_lines")
+def c16_reuse(tier, seed):
+    r = run_cases(REUSE_CASES, oracle_cli_reuse, "cli_reuse")
+    r["bound"] = f"{len(REUSE_CASES)} pairs of command lines run one after the other on the same Cli object, the second compared with a fresh Cli"
+    r["function"] = "Cli.parse_args / set_args (state left on the object)"
+    return r
+
+
+@bounded("C18", "one_cli_object_two_command_lines")
+def c18_reuse(tier, seed):
+    r = run_cases(REUSE_CASES[:3], oracle_cli_reuse, "cli_reuse")
+    r["bound"] = "3 pairs of command lines toggling --strings-converters on one Cli object"
+    r["function"] = "Cli.set_args (generator kwargs)"
+    return r
+
+
+# ------------------------------------------------------------------------------------------------ C13 through the command line
+def oracle_c13_cli(case):
+    """--dkf names reach the generator verbatim (a key may contain commas, spaces, dots); --dkr patterns are anchored one by one"""
+    names, = case
+    doc = {"lat,lng": {"a": 1, "b": 2}, "lat": {"c": 1}, "lng": {"d": 1}, "x y": {"e": 1}, "p.q": {"f": 1}, "plain": {"g": 1}}
+    with workdir() as d:
+        p = os.path.join(d, "g.json")
+        json.dump([doc], open(p, "w"))
+        out, exc, printed = run_cli(["-m", "Item", p, "-f", "pydantic", "--dkf"] + list(names))
+        if exc is not None:
+            return f"run failed: {type(exc).__name__}: {exc}"
+        reset_default_registry()
+        lib = library_text({"Item": [doc]}, "pydantic", "flat", {"dkf": list(names), "default_registry": True,
+                                                                  "merge": [ModelFieldsPercentMatch(), ModelFieldsNumberMatch()]})
+        if strip_header(out) != lib:
+            return f"--dkf {list(names)}: CLI output differs from the library run with dict_keys_fields={list(names)}"
+    return None
+
+
+@bounded("C13", "dict_field_names_via_cli")
+def c13_cli(tier, seed):
+    r = run_cases([(("lat,lng",),), (("lat", "lng"),), (("x y", "p.q"),), (("plain", "lat,lng"),)], oracle_c13_cli, "c13_cli")
+    r["bound"] = "4 --dkf name lists (names containing a comma, a space, a dot) on one object with 6 object-valued fields; CLI compared with the library"
+    r["function"] = "Cli.parse_args / set_args -> MetadataGenerator(dict_keys_fields=...)"
     return r
 
 
@@ -504,6 +591,9 @@ def c19(tier, seed):
     cases += [((), 'EMPTY = ""', "base"), ((), '"" or print("")', "pydantic"), ((), 'A = "x y"', "attrs"), ((), '"""Doc string."""', "base"),
               ((), 'BANNER = """top\n\n\n\n\nbottom"""', "base"), ((), "X = 1\n\n\n\n\n\nY = 2", "pydantic"), ((), "# c\t tab\r\nZ = 3", "base"),
               (('k ""', '"" k'), None, "base"), (('some key ""',), 'P = ""', "pydantic")]
+    # typographic / full-width quotes (three in a row, one between two ASCII quotes), characters str.splitlines treats as line ends
+    cases += [((), 'T = "\u201c\u201c\u201c"', "base"), (("k\u201c\u201d\u201c",), None, "pydantic"), (('"\u201c"',), 'Q = "\uff02\uff02\uff02 \u00a8"', "base"),
+              ((), 'U = "a\u2028b"', "base"), ((), 'V = "a\u0085b"  # c\u2029d', "pydantic"), ((), "W = 'x\x0cy'\nZ = 2", "attrs"), ((), 'S = "\x1c\x1d\x1e"', "base")]
     for _ in range(40 if tier == "quick" else 800):
         s = "".join(rng.choice(C19_ALPHA) for _ in range(rng.randint(1, 5)))
         cases.append(((), "Y = " + repr(s), rng.choice(["base", "pydantic", "attrs", "dataclasses"])))
@@ -514,7 +604,7 @@ def c19(tier, seed):
     return r
 
 
-ORACLES = {"c18_cli": lambda c: oracle_c18_cli(tuple(c)), "c10_cli": lambda c: oracle_c10_cli(tuple(c)), "c09_cli": lambda c: oracle_c09_cli(tuple(c)), "c16": lambda c: oracle_c16(tuple(c)), "c17": lambda c: oracle_c17(tuple(c)), "c17_success": lambda c: oracle_c17_success(tuple(c)),
+ORACLES = {"cli_reuse": lambda c: oracle_cli_reuse((tuple(c[0]), tuple(c[1]))), "c13_cli": lambda c: oracle_c13_cli((tuple(c[0]),)), "c18_cli": lambda c: oracle_c18_cli(tuple(c)), "c10_cli": lambda c: oracle_c10_cli(tuple(c)), "c09_cli": lambda c: oracle_c09_cli(tuple(c)), "c16": lambda c: oracle_c16(tuple(c)), "c17": lambda c: oracle_c17(tuple(c)), "c17_success": lambda c: oracle_c17_success(tuple(c)),
            "c19": lambda c: oracle_c19((tuple(c[0]), c[1], c[2]))}
 
 
